@@ -30,6 +30,10 @@ def main():
         ck.finish()
     ck.check_props()
     ck.check_translation("compiler")
+    # the search itself: Refine/SearchRefine.v proves on the translation of the current source that left_map_over_a terminates and is a
+    # correct and complete breadth-first search, and that compile_target returns a valid sequence for every target with identity right
+    # block when k is even (C06 on that class, every N) and terminates on it for every k
+    ck.check_translation("search")
     table = {k: set(v) for k, v in json.load(open(DATA)).items()} if os.path.exists(DATA) else {}
     cases = comp.compile_cases(ck, ck.quick and not record)
     res = ck.impl("c06", cases, per_case_s=120 if ck.quick else 300, procs=15)
